@@ -238,33 +238,35 @@ Section SeatLight.
       split; [reflexivity|]. destruct (w_pids _ _ HW3) as (_ & Hr & _). rewrite Forall_forall in Hr. rewrite H0. exact (Hr p (lookup_in_keys _ _ _ B1)). }
     assert (Hjc : forall (s5 : state) g5, core_of s5 = core_of s3 -> i < s_next_id s5 ->
               (forall pb3, op_packet o3 = Publish pb3 -> pub_qos pb3 <> 0 /\ norm (Publish pb3) = g_sub g5 /\ PJ i s5 g5 o3 pb3) ->
-              (exists pb3, op_packet o3 = Publish pb3) -> g_ph g5 <> GAbs -> J s5 g5).
-    { intros s5 g5 Hc Hlt Hk (pb3 & E3) Hne. rewrite J_pub by exact Hne. split; [exact Hlt|]. intros o5 Ho5.
+              (exists pb3, op_packet o3 = Publish pb3) -> g_ph g5 <> GAbs /\ g_ph g5 <> GOther -> J s5 g5).
+    { intros s5 g5 Hc Hlt Hk (pb3 & E3) [Hne Hne2]. rewrite J_pub by assumption. split; [exact Hlt|]. intros o5 Ho5.
       unfold core_of in Hc. inversion Hc as [[C1 C2 C3 C4 C5 C6 C7 C8 C9 C10 C11]]. unfold getop in Ho5, Ho3. rewrite C1, Ho3 in Ho5. inversion Ho5; subst o5.
       exists pb3. destruct (Hk pb3 E3) as (K1 & K2 & K3). splits; auto. }
-    unfold DeliveryWireDefs.J in HJ. destruct (g_ph g) as [| |pid d|pid|pid|pid|pid|pid|] eqn:Eph.
-    - (* not a QoS 1/2 publish *)
+    unfold DeliveryWireDefs.J in HJ. destruct (g_ph g) as [| |pid d|pid|pid|pid|pid|pid| |] eqn:Eph.
+    - (* not a QoS 1/2 publish: from now on the machine knows that something was handed to the encoder for it *)
       assert (Hp3 : pubq (op_packet o3) = false).
       { specialize (HJ o Ho). destruct Hrel as [->|(_ & pid & _ & Hw)]; [exact HJ|]. destruct (op_packet o); cbn in Hw; inversion Hw; subst; exact HJ. }
+      assert (Hlt3 : i < s_next_id s3) by (apply (w_lt _ _ HW3); eapply lookup_in_keys; exact Ho3).
       assert (Hk : forall s5 : state, s_ops s5 = s_ops s3 -> J s5 g).
       { intros s5 E5. rewrite J_abs by exact Eph. intros o5 Ho5. unfold getop in Ho5, Ho3. rewrite E5, Ho3 in Ho5. inversion Ho5; subst; exact Hp3. }
       split; [apply Hk; reflexivity|]. intros r _. split; [cbn; rewrite Eph; auto|]. intros s5 Hc _.
-      assert (Eg : gnext i g (DO (OEncode i (match op_pubrel o3 with Some pr => pr | None => op_packet o3 end) r true)) = g).
-      { cbn. rewrite N.eqb_refl, Eph. reflexivity. }
-      rewrite Eg. apply Hk. unfold core_of in Hc. inversion Hc. reflexivity.
+      assert (Eg : gnext i g (DO (OEncode i (match op_pubrel o3 with Some pr => pr | None => op_packet o3 end) r true)) = mkG (g_sp g) (g_sub g) GOther).
+      { cbn. rewrite N.eqb_refl, Eph. destruct (match op_pubrel o3 with Some pr => pr | None => op_packet o3 end); reflexivity. }
+      rewrite Eg. unfold DeliveryWireDefs.J. cbn [g_ph]. unfold core_of in Hc. inversion Hc as [[C1 C2 C3 C4 C5 C6 C7 C8 C9 C10 C11]].
+      split; [lia|]. intros o5 Ho5. unfold getop in Ho5, Ho3. rewrite C1, Ho3 in Ho5. inversion Ho5; subst; exact Hp3.
     - (* GNot: the first transmission, or a restart *)
       destruct HJ as [Hlt HJ]. destruct (HJ o Ho) as (pb & Epb & Hq & Hn & HP). unfold DeliveryWireDefs.PJ in HP. rewrite Eph in HP.
       destruct HP as (P1 & P2 & P3 & P4 & P5). destruct (Hq12 pb Epb) as (pb3 & E3 & D3 & Q3 & N3 & _).
       assert (Hr3 : op_pubrel o3 = None) by congruence. rewrite Hr3.
       assert (Hnp : needs_pid (op_packet o3) = true) by (rewrite E3; cbn; destruct (pub_qos pb3 =? 0) eqn:E; [lia|reflexivity]).
       split.
-      + apply (Hjc _ g); [reflexivity|cbn; lia| |eauto|congruence]. intros pb' E'. rewrite E3 in E'. inversion E'; subst pb'.
+      + apply (Hjc _ g); [reflexivity|cbn; lia| |eauto|split; congruence]. intros pb' E'. rewrite E3 in E'. inversion E'; subst pb'.
         split; [congruence|]. split; [congruence|]. unfold DeliveryWireDefs.PJ. rewrite Eph. splits; auto; try congruence;
           try (intros p; cbn; rewrite Epp; apply P3); try (intros _; exact Hnal); try (intros p Hp; exact (Hwf pb3 p E3 Hp)).
       + intros r Hbound. destruct (op_pid o3) as [p3|] eqn:Ep3; [|exfalso; exact (Hbound Hnp eq_refl)]. destruct (Hwf pb3 p3 E3 eq_refl) as [W1 W2]. split.
         * cbn. rewrite Eph. intros _. exists pb3. splits; auto; try congruence; lia.
         * intros s5 Hc Hst5. cbn [gnext]. rewrite N.eqb_refl, Eph, E3. pose proof Hc as Hc'. unfold core_of in Hc'. inversion Hc' as [[C1 C2 C3 C4 C5 C6 C7 C8 C9 C10 C11]].
-          apply (Hjc s5); [exact Hc|lia| |eauto|cbn; discriminate]. intros pb' E'. rewrite E3 in E'. inversion E'; subst pb'.
+          apply (Hjc s5); [exact Hc|lia| |eauto|cbn; split; discriminate]. intros pb' E'. rewrite E3 in E'. inversion E'; subst pb'.
           split; [congruence|]. split; [cbn [g_sub]; congruence|]. unfold DeliveryWireDefs.PJ. cbn [g_ph]. unfold bnd. splits; auto; try congruence; try lia.
           intros p. rewrite C7, Epp. apply P3.
     - (* GCur: seated already *) destruct HJ as [_ HJ]. destruct (HJ o Ho) as (pb & _ & _ & _ & HP). unfold DeliveryWireDefs.PJ in HP. rewrite Eph in HP. destruct HP as (P1 & _). congruence.
@@ -281,13 +283,13 @@ Section SeatLight.
       { pose proof (PL_rq_nohq s HPL Hrq P3) as Nh. destruct Dq as [(D & _)|(Em & _)]; [exfalso; apply Nh; rewrite D; left; reflexivity|].
         destruct Hal as [E|E]; [specialize (Hm E); congruence|exact E]. }
       split.
-      + apply (Hjc _ g); [reflexivity|cbn; lia| |eauto|congruence]. intros pb' E'. rewrite Epb in E'. inversion E'; subst pb'.
+      + apply (Hjc _ g); [reflexivity|cbn; lia| |eauto|split; congruence]. intros pb' E'. rewrite Epb in E'. inversion E'; subst pb'.
         split; [exact Hq|]. split; [exact Hn|]. unfold DeliveryWireDefs.PJ. rewrite Eph. unfold bnd, parked, dead_cur, noppub. cbn [s_st s_cur s_rq s_ppub set]. splits; auto; try lia;
           try (intros p; rewrite Epp; apply P3); try (right; split; [exact Ecur3|exact Hnal]); try (intros _; exact Hnal); try (intros Hc; discriminate).
       + intros r _. split.
         * cbn. rewrite Eph. intros _. exists pb. splits; auto.
         * intros s5 Hc Hst5. cbn [gnext]. rewrite N.eqb_refl, Eph. pose proof Hc as Hc'. unfold core_of in Hc'. inversion Hc' as [[C1 C2 C3 C4 C5 C6 C7 C8 C9 C10 C11]].
-          apply (Hjc s5); [exact Hc|lia| |eauto|cbn; discriminate]. intros pb' E'. rewrite Epb in E'. inversion E'; subst pb'.
+          apply (Hjc s5); [exact Hc|lia| |eauto|cbn; split; discriminate]. intros pb' E'. rewrite Epb in E'. inversion E'; subst pb'.
           split; [exact Hq|]. split; [exact Hn|]. unfold DeliveryWireDefs.PJ. cbn [g_ph]. unfold bnd, noppub. splits; auto; try congruence; try lia; try (intros p; rewrite C7, Epp; apply P3).
     - (* GRel: the PUBREL *)
       destruct HJ as [Hlt HJ]. destruct (HJ o Ho) as (pb & Epb & Hq & Hn & HP). unfold DeliveryWireDefs.PJ in HP. rewrite Eph in HP.
@@ -295,7 +297,7 @@ Section SeatLight.
       assert (Eo3 : o3 = o) by (destruct Hrel as [E|(E & _)]; [exact E|congruence]). subst o3. rewrite P2. unfold relof.
       assert (Hk : forall s5 : state, core_of s5 = core_of s3 -> J s5 g).
       { intros s5 Hc. pose proof Hc as Hc'. unfold core_of in Hc'. inversion Hc' as [[C1 C2 C3 C4 C5 C6 C7 C8 C9 C10 C11]].
-        apply (Hjc s5); [exact Hc|lia| |eauto|congruence]. intros pb' E'. rewrite Epb in E'. inversion E'; subst pb'.
+        apply (Hjc s5); [exact Hc|lia| |eauto|split; congruence]. intros pb' E'. rewrite Epb in E'. inversion E'; subst pb'.
         split; [exact Hq|]. split; [exact Hn|]. unfold DeliveryWireDefs.PJ. rewrite Eph. unfold bnd, onlyppub. splits; auto; try lia.
         intros p. rewrite C7, Epp. apply P1. }
       split; [apply Hk; reflexivity|]. intros r _. split; [cbn; rewrite Eph; auto|]. intros s5 Hc _.
@@ -309,16 +311,26 @@ Section SeatLight.
       { pose proof (PL_rq_nohq s HPL Hrq P3) as Nh. destruct Dq as [(D & _)|(Em & _)]; [exfalso; apply Nh; rewrite D; left; reflexivity|].
         destruct Hal as [E|E]; [specialize (Hm E); congruence|exact E]. }
       split.
-      + apply (Hjc _ g); [reflexivity|cbn; lia| |eauto|congruence]. intros pb' E'. rewrite Epb in E'. inversion E'; subst pb'.
+      + apply (Hjc _ g); [reflexivity|cbn; lia| |eauto|split; congruence]. intros pb' E'. rewrite Epb in E'. inversion E'; subst pb'.
         split; [exact Hq|]. split; [exact Hn|]. unfold DeliveryWireDefs.PJ. rewrite Eph. unfold bnd, parked, dead_cur, noppub. cbn [s_st s_cur s_rq s_ppub set]. splits; auto; try lia;
           try (intros p; rewrite Epp; apply P3); try (right; split; [exact Ecur3|exact Hnal]); try (intros _; exact Hnal); try (intros Hc; discriminate).
       + intros r _. split.
         * cbn. rewrite Eph. intros _. auto.
         * intros s5 Hc Hst5. cbn [gnext]. rewrite N.eqb_refl, Eph. pose proof Hc as Hc'. unfold core_of in Hc'. inversion Hc' as [[C1 C2 C3 C4 C5 C6 C7 C8 C9 C10 C11]].
-          apply (Hjc s5); [exact Hc|lia| |eauto|cbn; discriminate]. intros pb' E'. rewrite Epb in E'. inversion E'; subst pb'.
+          apply (Hjc s5); [exact Hc|lia| |eauto|cbn; split; discriminate]. intros pb' E'. rewrite Epb in E'. inversion E'; subst pb'.
           split; [exact Hq|]. split; [exact Hn|]. unfold DeliveryWireDefs.PJ. cbn [g_ph]. unfold bnd, noppub. splits; auto; try congruence; try lia; try (intros p; rewrite C7, Epp; apply P3).
     - (* GRelCur: seated already *) destruct HJ as [_ HJ]. destruct (HJ o Ho) as (pb & _ & _ & _ & HP). unfold DeliveryWireDefs.PJ in HP. rewrite Eph in HP. destruct HP as (P1 & _). congruence.
     - (* GGone *) destruct HJ as [_ HJ]. destruct (HJ o Ho) as (pb & _ & _ & _ & HP). unfold DeliveryWireDefs.PJ in HP. rewrite Eph in HP. destruct HP.
+    - (* GOther: no QoS 1/2 publish *)
+      destruct HJ as [Hlt HJ].
+      assert (Hp3 : pubq (op_packet o3) = false).
+      { specialize (HJ o Ho). destruct Hrel as [->|(_ & pid & _ & Hw)]; [exact HJ|]. destruct (op_packet o); cbn in Hw; inversion Hw; subst; exact HJ. }
+      assert (Hk : forall s5 : state, s_ops s5 = s_ops s3 -> s_next_id s5 = s_next_id s3 -> J s5 g).
+      { intros s5 E5 E6. unfold DeliveryWireDefs.J. rewrite Eph. split; [lia|]. intros o5 Ho5. unfold getop in Ho5, Ho3. rewrite E5, Ho3 in Ho5. inversion Ho5; subst; exact Hp3. }
+      split; [apply Hk; reflexivity|]. intros r _. split; [cbn; rewrite Eph; auto|]. intros s5 Hc _.
+      assert (Eg : gnext i g (DO (OEncode i (match op_pubrel o3 with Some pr => pr | None => op_packet o3 end) r true)) = g).
+      { cbn. rewrite N.eqb_refl, Eph. reflexivity. }
+      rewrite Eg. unfold core_of in Hc. inversion Hc. apply Hk; assumption.
   Qed.
 
   (* ---- operation i is completely written ---- *)
@@ -337,8 +349,9 @@ Section SeatLight.
     set (o' := o <| op_ext := Some now |>).
     assert (Ho' : getop s' i = Some o') by (unfold getop; rewrite Eops; apply lookup_update_eq; exact Ho).
     cbn [gnext]. rewrite N.eqb_refl. unfold DeliveryWireDefs.J in HJ.
-    destruct (g_ph g) as [| |pid d|pid|pid|pid|pid|pid|] eqn:Eph.
+    destruct (g_ph g) as [| |pid d|pid|pid|pid|pid|pid| |] eqn:Eph.
     { rewrite J_abs by exact Eph. intros o1 Ho1. rewrite Ho' in Ho1. inversion Ho1; subst o1. exact (HJ o Ho). }
+    9:{ destruct HJ as [Hlt HJ]. unfold DeliveryWireDefs.J. rewrite Eph. split; [lia|]. intros o1 Ho1. rewrite Ho' in Ho1. inversion Ho1; subst o1. exact (HJ o Ho). }
     all: destruct HJ as [Hlt HJ]; destruct (HJ o Ho) as (pb & Epb & Hq & Hnm & HP); unfold DeliveryWireDefs.PJ in HP; rewrite Eph in HP.
     (* not seated in a live state *)
     all: try (exfalso; repeat match goal with H : _ /\ _ |- _ => destruct H end;
@@ -349,24 +362,24 @@ Section SeatLight.
           [rewrite Epb in Hx; cbn in Hx; destruct (pub_qos pb =? 0) eqn:E; [lia|discriminate]|exists p; auto|rewrite Epb in Hx; discriminate]).
     all: destruct Epp as (p0 & Hp0 & Epp); rewrite Epb in Hp0; cbn in Hp0; inversion Hp0; subst p0; clear Hp0.
     all: assert (Hst' : s_st s' = s_st s) by (apply Hst; rewrite Epb; reflexivity).
-    all: assert (Hgoal : forall ph', (ph' <> GAbs) -> PJ i s' (mkG (g_sp g) (g_sub g) ph') o' pb -> J s' (mkG (g_sp g) (g_sub g) ph'))
-      by (intros ph' Hne Hk; rewrite J_pub by exact Hne; split; [lia|]; intros o1 Ho1; rewrite Ho' in Ho1; inversion Ho1; subst o1;
+    all: assert (Hgoal : forall ph', (ph' <> GAbs /\ ph' <> GOther) -> PJ i s' (mkG (g_sp g) (g_sub g) ph') o' pb -> J s' (mkG (g_sp g) (g_sub g) ph'))
+      by (intros ph' [Hne Hne2] Hk; rewrite J_pub by assumption; split; [lia|]; intros o1 Ho1; rewrite Ho' in Ho1; inversion Ho1; subst o1;
           exists pb; splits; auto).
     all: assert (Hins : forall pid0, pub_pid pb = pid0 -> (noppub i s \/ onlyppub i s pid0) -> onlyppub i s' pid0)
       by (intros pid0 Epid Hor p; rewrite Epp, Epid; split;
           [intros Hin; apply in_insert_values in Hin; destruct Hin as [E|Hin]; [inversion E; reflexivity|destruct Hor as [Hx|Hx]; [exfalso; exact (Hx _ Hin)|apply Hx; exact Hin]]
           |intros ->; apply In_insert_same]).
     - (* GCur -> GPend *)
-      destruct HP as (P1 & P2 & P3 & P4 & (P5 & P6 & P7)). apply Hgoal; [discriminate|]. unfold DeliveryWireDefs.PJ. cbn [g_ph]. unfold bnd. splits; auto; try lia.
+      destruct HP as (P1 & P2 & P3 & P4 & (P5 & P6 & P7)). apply Hgoal; [split; discriminate|]. unfold DeliveryWireDefs.PJ. cbn [g_ph]. unfold bnd. splits; auto; try lia.
     - (* GPend: stays *)
       destruct HP as (P1 & P2 & (P5 & P6 & P7)).
       replace g with (mkG (g_sp g) (g_sub g) (GPend pid)) by (destruct g; cbn in *; congruence).
-      apply Hgoal; [discriminate|]. unfold DeliveryWireDefs.PJ. cbn [g_ph]. unfold bnd. splits; auto; try lia.
+      apply Hgoal; [split; discriminate|]. unfold DeliveryWireDefs.PJ. cbn [g_ph]. unfold bnd. splits; auto; try lia.
     - (* GRel: stays *)
       destruct HP as (P1 & P2 & (P5 & P6 & P7) & P8).
       replace g with (mkG (g_sp g) (g_sub g) (GRel pid)) by (destruct g; cbn in *; congruence).
-      apply Hgoal; [discriminate|]. unfold DeliveryWireDefs.PJ. cbn [g_ph]. unfold bnd. splits; auto; try lia.
+      apply Hgoal; [split; discriminate|]. unfold DeliveryWireDefs.PJ. cbn [g_ph]. unfold bnd. splits; auto; try lia.
     - (* GRelCur -> GRel *)
-      destruct HP as (P1 & P2 & P3 & P4 & (P5 & P6 & P7) & P8). apply Hgoal; [discriminate|]. unfold DeliveryWireDefs.PJ. cbn [g_ph]. unfold bnd. splits; auto; try lia.
+      destruct HP as (P1 & P2 & P3 & P4 & (P5 & P6 & P7) & P8). apply Hgoal; [split; discriminate|]. unfold DeliveryWireDefs.PJ. cbn [g_ph]. unfold bnd. splits; auto; try lia.
   Qed.
 End SeatLight.
